@@ -101,7 +101,9 @@ func (u *uploader) findWork() work {
 	// we'll want to clean the directory.
 	ans.uploaded = make(map[string]bool)
 	for _, fi := range fis {
-		if strings.HasSuffix(fi.Name(), ".json") {
+		// Only <date>.json records an upload: the name of any other file a
+		// user left here must not end up as a report's LastWeek.
+		if isReportName(fi.Name()) {
 			u.logger.Printf("Already uploaded: %s", fi.Name())
 			ans.uploaded[fi.Name()] = true
 		}
